@@ -41,6 +41,13 @@ RULE = ("whole sessions through the real daemons (ASan+UBSan build of the workin
         "plus: nothing is committed unless the envelope stream was complete. "
         "A harness stopped by ASan/UBSan inside the daemon's code leaves the session it was running behind; it is re-run on the same harness built without "
         "instrumentation and reported as an oracle failure (with what the uninstrumented code answered and queued). "
+        "Whole SMTP connections (protocol letter T, %s seeded + about 700 enumerated per run; the client's bytes as they are): three transactions on one connection with "
+        "every combination of queue outcomes {ok, temporary, permanent, crash} for the three runs, RSET between MAIL and DATA, repeated MAIL, RCPT after a completed DATA, "
+        "refused / unparsable RCPT, DATA without MAIL or RCPT, HELO/EHLO in the middle of a transaction, source routes, quoted local parts, bare-LF command lines, mixed-case "
+        "verbs, NUL inside command lines, acknowledgement-shaped garbage lines, pipelined commands behind the terminator and behind QUIT, hop and size limit in the second of "
+        "three transactions, address lengths 896..902 in a later transaction, EVERY cut point of a two-transaction session, write faults, RELAYCLIENT set / empty / unset, "
+        "random command sequences with byte damage and truncation; 1 in 25 against the real qmail-queue. Letters S and T are compared with the COMPOSED model "
+        "Nq.SmtpC07.run (C08's command loop + smtp_data + qmail.c) and T is judged by the session oracle (statement of C07_smtp_session on the implementation's replies and queue records). "
         "Compared with the Lean model: every reply byte, the daemon's exit status, every byte each queue run received on descriptors 0 and 1. "
         "Oracle (independent strict netstring grammar, reference SMTP decoder, independent calendar and hop count, qmail-queue.8 exit classes): "
         "ack => exactly that message with a complete envelope of exactly the acknowledged addresses and exit 0; no ack => no complete envelope or "
@@ -270,7 +277,7 @@ def main():
     c.cov["evaluations"] = int(stats.get("cases", 0))
     c.cov["distinct_nontrivial"] = int(stats.get("distinct_nontrivial", 0))
     c.cov["traces_validated_against_impl"] = max(0, int(stats.get("cases", 0)) - int(stats.get("disagree", 0)))
-    c.cov["rule"] = RULE % ("+".join(str(nrand[n]) for n, _, _ in HARNESSES), NDATE[c.tier])
+    c.cov["rule"] = RULE % ("+".join(str(nrand[n]) for n, _, _ in HARNESSES), nrand["smtpd"] // 3, NDATE[c.tier])
     c.cov["exhaustive"] = False
     c.cov["samples"] = [x[:1200] for x in samples[:6]] or ["(no sample emitted)"]
     c.cov["input_distribution"] = {k: v for k, v in stats.items() if k not in ("cases", "distinct_nontrivial", "disagree", "oracle_fail")}
@@ -279,11 +286,11 @@ def main():
         "real-queue leg: qmail-queue's end is drained (it goes away only after the daemon closed both pipes: one of the schedules the kernel allows, and the deterministic one); its uid is the uid of the test run, its clock the real clock (only its own first trace line depends on them, which the oracle skips after checking its fixed prefix)",
         "client bytes arrive in order whatever the read sizes (chunkings 0/1/3/100 are run); pipes do not short-write; a failing write to the queue program writes nothing",
         "netstring lengths: ASCII digits only; leading zeros and an empty digit string are tolerated by the oracle as the daemons tolerate them",
-        "SMTP sessions are generated from the grammar HELO? MAIL RCPT* DATA with plain addresses (no quoting/source routes: address parsing and relay gating are C08); control/rcpthosts = {ok.example, .sub.example, LocalHost}",
+        "SMTP: letter S sessions follow the grammar HELO? MAIL RCPT* DATA with plain addresses, letter T sessions are arbitrary command streams (several transactions, RSET, source routes, quoted local parts); control/rcpthosts = {ok.example, .sub.example, LocalHost}, no badmailfrom / morercpthosts / localiphost file, no address with a domain literal is generated (ipme is the test machine's), qmail_open never fails (pipe/fork errors are not injected); address parsing and the policy predicates themselves are C08's models and theorems, composed here",
         "an acknowledgement buffered in ssout is lost when qmail-qmtpd exits on a later protocol violation within the same read buffer (modelled exactly; the oracle requires 'queued => acknowledged' only for replies that were sent)",
     ]
     standard_verdict(c, ok, stats, disagree, oracle, errors,
-                     "Nq/Netstring.lean + Nq/QmailC.lean + Nq/Received.lean vs qmail-smtpd.c / qmail-qmtpd.c / qmail-qmqpd.c / qmail.c / received.c / date822fmt.c / datetime.c",
+                     "Nq/Netstring.lean + Nq/SmtpC07.lean (with Nq/SmtpSession.lean) + Nq/QmailC.lean + Nq/Received.lean vs qmail-smtpd.c / qmail-qmtpd.c / qmail-qmqpd.c / qmail.c / received.c / date822fmt.c / datetime.c",
                      neighbourhood, replay_hint="./check C07 --replay <file of case lines: the text after case= with | replaced by spaces>")
     c.finish()
 
